@@ -293,3 +293,6 @@ Theorem C04_tie_table_order_is_reflected :
                                             nth 0 btable_names EmptyString].
 Proof. split; vm_compute; reflexivity. Qed.
 Print Assumptions C04_tie_table_order_is_reflected.
+
+(* assumptions of the theorems above that had no report next to them *)
+Print Assumptions C04_delete_first_unrecoverable.
